@@ -11,6 +11,7 @@ import contextlib
 import dis
 import io
 import itertools
+import functools
 import types
 import warnings
 from typing import Any, Dict, List, Optional, Tuple
@@ -18,6 +19,15 @@ from typing import Any, Dict, List, Optional, Tuple
 
 class Err(Exception):
     pass
+
+
+def is_exit_method(r: Any) -> bool:
+    """A bound __exit__ / __aexit__ as a with statement leaves it on the value stack: a Python method, or the builtin
+    bound method of a manager implemented in C (files, locks, io objects)."""
+    if isinstance(r, types.MethodType):
+        return r.__func__.__name__ in ("__exit__", "__aexit__")
+    return isinstance(r, types.BuiltinMethodType) and getattr(r, "__name__", None) in ("__exit__", "__aexit__") and not isinstance(
+        getattr(r, "__self__", None), (type(None), types.ModuleType))
 
 
 @types.coroutine
@@ -72,6 +82,35 @@ class DerivedLogManager(LogManager):
     """Inherits __enter__/__exit__/__aenter__/__aexit__ from its base class."""
 
 
+class CExitLogManager(io.StringIO):
+    """__exit__ is implemented in C (_io._IOBase.__exit__, as for files and locks) and calls back into the Python
+    close(); the async protocol is the plain one."""
+
+    def __init__(self, env: "Env", i: int, swallow: bool, shape: str = "self"):
+        super().__init__()
+        self.env, self.i, self.swallow, self.shape = env, i, swallow, shape
+        self._in_with = False
+
+    _value = LogManager._value
+    __repr__ = LogManager.__repr__
+    __aenter__ = LogManager.__aenter__
+    __aexit__ = LogManager.__aexit__
+
+    def __enter__(self) -> Any:
+        self.env.probe("enter")
+        self.env.log.append(("entered", self.i, self))
+        self._in_with = True
+        return self._value()
+
+    def close(self) -> None:
+        if self._in_with:            # (close() is also called by the finaliser: only the with statement's call is logged)
+            self._in_with = False
+            self.env.log.append(("exit-begin", self.i, self))
+            self.env.probe("exit")
+            self.env.log.append(("exit-end", self.i, self))
+        super().close()
+
+
 LM = LogManager
 
 
@@ -107,7 +146,8 @@ class Env:
         self.on_probe(fr, inner, active, exiting, where)
 
     def m(self, i: int, shape: str = "self") -> LM:
-        return (DerivedLogManager if i % 2 else LogManager)(self, i, False, shape)
+        cls = CExitLogManager if i % 4 == 2 else DerivedLogManager if i % 2 else LogManager
+        return cls(self, i, False, shape)
 
     class _AnyBox:
         def __getitem__(self, k: Any) -> Any:
@@ -347,8 +387,7 @@ def observe_all(src: str, kind: str, want_real: bool = True, trickery: Optional[
                 try:
                     import gc as _gc
 
-                    rec["referent_exits"] = [r for r in _gc.get_referents(ob.gen) if isinstance(r, types.MethodType)
-                                             and r.__func__.__name__ in ("__exit__", "__aexit__")]
+                    rec["referent_exits"] = [r for r in _gc.get_referents(ob.gen) if is_exit_method(r)]
                     det = _lowlevel.inspect_frame(ob.frame)
                     rec["stack"] = list(det.stack)
                     rec["blocks"] = [(b.handler, b.level) for b in det.blocks]
